@@ -74,6 +74,14 @@ CHECKS["C18"] = dict(
     ref="DESIGN.md §5 C18",
 )
 
+CHECKS["C11"] = dict(
+    level="exploration",
+    text="Runtime monitoring of the generic element model: fragments written by the harness are captured by nine wildcard placements, parsed by both handlers, serialized by both writers and compared with libxml2's reading of the input (whitespace-only text next to children excepted); second parse must equal the first; the stand-alone TreeParser must build the same generic tree. Small trees are enumerated completely (sub-space stated in the evidence), larger ones are random. Held on the executions produced.",
+    note="Trusted: libxml2 infoset of the input, own fragment writer. Builtin xsi:type names are compared by python type family. One open known finding (prefixed attribute values become Clark notation) has a dedicated probe and its trigger is kept out of the population.",
+    technique="runtime monitoring: infoset-preservation oracle + fixpoint + differential (TreeParser vs wildcard path); bounded-exhaustive small trees + random larger trees",
+    ref="DESIGN.md §5 C11",
+)
+
 FIX_COMMITS = []  # guarded hook commits in /repo (none: all hooks are installed from the harness side)
 
 
